@@ -254,6 +254,8 @@ def cut_loop(ex: Exec, node, fr, spec: LoopSpec, n, item_at):
                 fr.env[var] = c
                 cur = c
             fr.env[f"pre{ordinal}_{var}"] = cur
+    for ename, eexpr in spec.entry.items():
+        fr.env[ename] = snapshot(eval_clause(ex, eexpr, fr.env, mi))
     # 1. establishment
     check_all(0, "entry")
     # 2. arbitrary iteration
